@@ -232,7 +232,7 @@ pub fn gen_c05(tier: &str, seed: u64, emit: &mut dyn FnMut(String)) {
     let mut rng = Rng::new(seed ^ 0xC05);
     for i in 0..(if tier == "thorough" { 40000 } else { 2500 }) {
         let shared = i % 23 == 7;                       // finding F7: an elementary PID shared by two programs
-        let np = if i % 23 == 11 { 2 } else { rng.range(1, 3) as usize };
+        let np = if i % 23 == 11 || i % 23 == 19 { 2 } else { rng.range(1, 3) as usize };
         let mut w = World::new(&mut rng, if shared { 2 } else { np }, shared);
         w.send_pat("new", 0, &mut rng);
         if i % 5 == 2 && w.live_pmt_pids().len() >= 2 { let l = w.live_pmt_pids(); let big = rng.chance(1, 2); w.send_pmts_interleaved(&l, "new", big, &mut rng); }
@@ -243,14 +243,35 @@ pub fn gen_c05(tier: &str, seed: u64, emit: &mut dyn FnMut(String)) {
             // a Remove of a PID that has no handler any more precedes the Remove of one that has
             let l = w.live_pmt_pids(); let (p1, p2) = (l[0], l[1]);
             let x = w.pmts[&p1].streams[0].1;
-            if w.pmts[&p2].streams.iter().any(|s| s.1 == x) {
+            if w.pmts[&p2].streams.iter().any(|s| s.1 == x) && x < 0x1ff0 {
+                // the second program first gains a stream Y on a PID above X (Removes are queued in ascending PID order)
+                let used: Vec<u16> = w.pool.iter().cloned().chain(w.progs.iter().map(|q| q.1)).chain(w.pmts.values().flat_map(|m| m.streams.iter().map(|s| s.1))).collect();
+                let mut y = x + 1; while used.contains(&y) { y += 1; }
+                { let m = w.pmts.get_mut(&p2).unwrap(); m.version = (m.version + 1) & 31; m.streams.push((0x0f, y)); }
+                w.send_pmt(p2, "new", 0, false, &mut rng);
+                { let idx = w.mux.pkts.len(); let pl = rng.bytes(184); w.mux.data_packet(y, false, &pl, &mut rng); w.notes.push(format!("P|{}|{}", y, idx)); }
                 { let m = w.pmts.get_mut(&p1).unwrap(); m.version = (m.version + 1) & 31; m.streams.retain(|s| s.1 != x); if m.streams.is_empty() { m.streams.push((0x1b, 0x1f00)); } }
                 w.send_pmt(p1, "new", 0, false, &mut rng); w.probes(&mut rng);
                 { let m = w.pmts.get_mut(&p2).unwrap(); m.version = (m.version + 1) & 31;
-                  let y = m.streams.iter().map(|s| s.1).filter(|q| *q != x).max();
-                  m.streams.retain(|s| s.1 != x && Some(s.1) != y); if m.streams.is_empty() { m.streams.push((0x1b, 0x1f01)); } }
+                  m.streams.retain(|s| s.1 != x && s.1 != y); if m.streams.is_empty() { m.streams.push((0x1b, 0x1f01)); } }
                 w.send_pmt(p2, "new", 0, false, &mut rng); w.probes(&mut rng);
+                { let idx = w.mux.pkts.len(); let pl = rng.bytes(184); w.mux.data_packet(y, false, &pl, &mut rng); w.notes.push(format!("P|{}|{}", y, idx)); }
             }
+        }
+        if i % 23 == 19 && w.live_pmt_pids().len() >= 2 {
+            // the PAT drops program 2; its map PID X is later announced as an elementary stream of program 1; then the PAT
+            // changes again without mentioning X: X stays with the stream handler
+            let l = w.live_pmt_pids(); let (p1, x) = (l[0], l[1]);
+            w.pat_version = (w.pat_version + 1) & 31; w.progs.retain(|q| q.1 != x); w.pmts.remove(&x); w.last_pmt.remove(&x);
+            w.send_pat("new", 0, &mut rng); w.probes(&mut rng);
+            { let m = w.pmts.get_mut(&p1).unwrap(); m.version = (m.version + 1) & 31; m.streams.push((0x1b, x)); }
+            w.send_pmt(p1, "new", 0, false, &mut rng);
+            { let idx = w.mux.pkts.len(); let pl = rng.bytes(184); w.mux.data_packet(x, false, &pl, &mut rng); w.notes.push(format!("P|{}|{}", x, idx)); }
+            w.pat_version = (w.pat_version + 1) & 31; let spare = w.pool[w.pool.len() - 1] ^ 0x0400;
+            if !w.progs.iter().any(|q| q.1 == spare) && !w.pmts.values().any(|m| m.streams.iter().any(|s| s.1 == spare)) && spare != x { w.progs.push((0, spare)); }
+            w.send_pat("new", 0, &mut rng);
+            { let idx = w.mux.pkts.len(); let pl = rng.bytes(184); w.mux.data_packet(x, false, &pl, &mut rng); w.notes.push(format!("P|{}|{}", x, idx)); }
+            w.probes(&mut rng);
         }
         if i % 23 == 11 && w.live_pmt_pids().len() >= 2 {
             // an elementary PID migrates: program 1 drops it, program 2 announces it later (never listed by both at once),
